@@ -26,6 +26,8 @@
    nothing else).  The state of the whole (links per hook, schedule manager, channel) and
    its steps are those of C11_Model ([sys], [sys_step]); this file adds what the operator
    makes of every string the consumer of the schedule channel receives.
+   Last part of the file: the ids under which the loaded hooks' bindings are registered
+   (pkg/hook/config: ConvertSchedule / ScheduleID) - [hm_load], [load_input], [run_op].
    No proofs here. *)
 From Verif Require Import Common C11_Model.
 
@@ -76,3 +78,43 @@ Fixpoint run_hm_from (i : input) (s : sys) (ops : list op) : list hobs :=
       :: run_hm_from i s' r
   end.
 Definition run_hm (i : input) : list hobs := run_hm_from i (sys_init i) (i_ops i).
+
+(* ------------------------------------------------------------------ the ids of the bindings
+
+   pkg/hook/config (config_v0.go / config_v1.go ConvertSchedule, util.go ScheduleID): when a
+   hook's configuration is loaded every schedule binding gets
+       ScheduleEntry{Crontab: <the configured string>, Id: ScheduleID()}
+   and ScheduleID() draws a uuid: the id is made from NOTHING the binding is configured with -
+   not its name (unnamed bindings are all called "schedule"), not its position in the hook's
+   schedule list, not its crontab, not the hook.  Whatever two (hook, binding) have in common,
+   their ids differ.  These ids are the keys of the hook's ScheduleLinks AND what the shared
+   schedule manager counts the references to a crontab by (CronEntry.Ids).
+
+   The model: loading numbers the bindings of all hooks in the order of the hooks' paths and,
+   within a hook, of its schedule list, from [first_id] on (smaller numbers are left to ids
+   passed to Add / Remove by hand): ONE ID PER (hook, binding).  Everything else a binding is
+   configured with is kept.  The harness numbers the REAL id strings the config loader produced
+   the same way (a string gets the number of the first (hook, binding) that carries it) and
+   reports them per hook and binding ([loaded_ids] is compared with that). *)
+Definition first_id : N := 11.
+Definition set_id (n : N) (b : binding) : binding :=
+  mkB n (b_crontab b) (b_name b) (b_group b) (b_af b) (b_snaps b) (b_queue b).
+Fixpoint load_bs (n : N) (bs : list binding) : list binding :=
+  match bs with
+  | [] => []
+  | b :: r => set_id n b :: load_bs (N.succ n) r
+  end.
+Fixpoint load_from (n : N) (hooks : list (list binding)) : list (list binding) :=
+  match hooks with
+  | [] => []
+  | bs :: hr => load_bs n bs :: load_from (n + N.of_nat (length bs)) hr
+  end.
+Definition hm_load (hooks : list (list binding)) : list (list binding) := load_from first_id hooks.
+
+(* the case as the operator sees it: the hooks' configurations loaded *)
+Definition load_input (i : input) : input :=
+  mkIn (hm_load (i_hooks i)) (i_invalid i) (i_alphabet i) (i_ops i).
+(* per hook and binding: the id the loader produced *)
+Definition loaded_ids (i : input) : list (list N) := map (map b_id) (i_hooks (load_input i)).
+(* the operator-level run: hooks loaded, then the operations *)
+Definition run_op (i : input) : list hobs := run_hm (load_input i).
